@@ -330,5 +330,10 @@ func timeOfView(v string, adj bool) (time.Time, error) {
 // e.g. the view "string_201901" would return "201901".
 func viewTimePart(v string) string {
 	parts := strings.Split(v, "_")
+	if len(parts) < 2 {
+		// "standard" itself has no time part (it is eight characters long, like a day
+		// view's time part, and was taken for one by minMaxViews on D/DH quanta).
+		return ""
+	}
 	return parts[len(parts)-1]
 }
